@@ -72,7 +72,32 @@ ErrObs == Pr(<<ECallB("len", <<EM>>), EIdx(EM, ENum(I(0))), EIdx(EM, EUn("-", EN
 ErrmsgProgs == { <<SInfer("n", ENum(I(0))), S2N(a), ErrObs, S2N(b), ErrObs, S2N(c), Pr(<<ECallB("len", <<EM>>)>>), Pr(<<EIdx(EM, ENum(I(0)))>>)>> :
                    a \in {<<113>>, <<228, 113, 113>>}, b \in {<<113, 113, 113, 113>>, <<8364>>}, c \in {<<49>>, <<122>>} }
 
+\* operators leave their operands alone: after t := s[lo:hi] + x (and x + s[lo:hi], and a slice of a slice) every
+\* element, every slice and the iteration of the source still give what they gave before; strings and arrays
+ObsStr(n) == <<Pr(<<S, ECallB("len", <<S>>)>> \o [i \in 1..n |-> EIdx(S, ENum(I(i - 1)))] \o [i \in 1..n |-> EIdx(S, EUn("-", ENum(I(i))))]),
+               Pr([i \in 1..n |-> ESlice(S, <<ENum(I(i - 1))>>, <<>>)] \o [i \in 1..n |-> ESlice(S, <<>>, <<ENum(I(i))>>)]),
+               SFor("c", "str", <<S>>, <<Pr(<<EVar("c", T_str)>>)>>)>>
+ObsArr(n) == <<Pr(<<A, ECallB("len", <<A>>)>> \o [i \in 1..n |-> EIdx(A, ENum(I(i - 1)))]),
+               Pr([i \in 1..n |-> ESlice(A, <<ENum(I(i - 1))>>, <<>>)] \o [i \in 1..n |-> ESlice(A, <<>>, <<ENum(I(i))>>)])>>
+TS == EVar("t", T_str)
+TA == EVar("t", TArr(T_num))
+StrTails == {<<88>>, <<233, 89>>, <<128512, 90, 90>>}
+StableStr(n, lo, hi, x, left) ==
+  <<SInfer("s", StrOf(n))>> \o ObsStr(n)
+   \o <<SInfer("t", IF left THEN EBin("+", ESlice(S, Opt(lo), Opt(hi)), EStr(x)) ELSE EBin("+", EStr(x), ESlice(S, Opt(lo), Opt(hi)))), Pr(<<TS>>)>> \o ObsStr(n)
+   \o <<SAsg(TS, EBin("+", ESlice(ESlice(S, Opt(lo), Opt(hi)), <<>>, <<>>), ESlice(TS, <<ENum(I(0))>>, <<ENum(I(1))>>))), Pr(<<TS>>)>> \o ObsStr(n)
+StableArr(n, lo, hi, k, left) ==
+  LET X == EArr([i \in 1..k |-> ENum(I(90 + i))])
+  IN <<SInfer("a", ArrOf(n))>> \o ObsArr(n)
+      \o <<SInfer("t", IF left THEN EBin("+", ESlice(A, Opt(lo), Opt(hi)), X) ELSE EBin("+", X, ESlice(A, Opt(lo), Opt(hi)))), Pr(<<TA>>)>> \o ObsArr(n)
+      \o <<SAsg(TA, EBin("+", ESlice(TA, <<>>, <<ENum(I(1))>>), ESlice(A, Opt(lo), Opt(hi)))), SAsg(EIdx(TA, ENum(I(0))), ENum(I(55))), Pr(<<TA>>)>> \o ObsArr(n)
+InB(n) == {I(i) : i \in 0..n} \cup {NoB}
+StableProgs ==
+  UNION {{StableStr(n, lo, hi, x, l) : lo \in InB(n), hi \in InB(n), x \in StrTails, l \in BOOLEAN} : n \in {MaxLen}}
+  \cup UNION {{StableArr(n, lo, hi, k, l) : lo \in InB(n), hi \in InB(n), k \in 1..2, l \in BOOLEAN} : n \in {MaxLen}}
+
 FamCases == {MkCase("FamIndex", "idx", Program(p, <<>>, <<>>)) : p \in Progs}
+            \cup {MkCase("FamIndex", "stable", Program(p, <<>>, <<>>)) : p \in StableProgs}
             \cup {MkCase("FamIndex", "errmsg", Program(p, <<>>, <<>>)) : p \in ErrmsgProgs}
 FamInit == InitWith(FamCases)
 =============================================================================
